@@ -56,3 +56,8 @@ KERNEL int K(k_aadd_axis_dtype)(SIGB, int axis, OUTS){ MKB; OBS_ANY(view::accumu
 // narrowing dtype: 32-bit source elements, dtype = uint8: every partial result is an 8-bit value
 KERNEL int K(k_radd_axis_dtype8)(SIG, int axis, const size_t* idx, size_t nidx, size_t* oshape, size_t* odim, unsigned char* out){ MK; OBS_ANY(view::reduce_add(a, axis, nm::uint8)); }
 KERNEL int K(k_aadd_axis_dtype8)(SIG, int axis, const size_t* idx, size_t nidx, size_t* oshape, size_t* odim, unsigned char* out){ MK; OBS_ANY(view::accumulate_add(a, axis, nm::uint8)); }
+// axis None with dtype, initial and keepdims together (the None specialisation of reduce_t has its own copies of the fold)
+KERNEL int K(k_radd_none_dtype_init_keep)(SIGB, unsigned init, OUTS){ MKB; OBS_ANY(view::reduce_add(a, nm::None, nm::uint32, init, nm::True)); }
+KERNEL int K(k_radd_none_dtype_init)(SIGB, unsigned init, OUTS){ MKB; OBS_ANY(view::reduce_add(a, nm::None, nm::uint32, init)); }
+KERNEL int K(k_radd_none_dtype_keep)(SIGB, OUTS){ MKB; OBS_ANY(view::reduce_add(a, nm::None, nm::uint32, nm::None, nm::True)); }
+KERNEL int K(k_radd_axis_dtype_init_keep)(SIGB, int axis, unsigned init, OUTS){ MKB; OBS_ANY(view::reduce_add(a, axis, nm::uint32, init, nm::True)); }
